@@ -1,16 +1,15 @@
 /-
   C18 — "Names referenced from other tables exist and say what the source says".
 
-  Model: FontcModel/Names.lean (literal transcription of `NameBuilder::build`, `StaticMetadata::new`'s name-id
-  allocation with the `HashMap` iteration order as the explicit parameter `order`, fvar's `reusable_name_id`, STAT's
-  axis name lookup, FEA name-id shifting). Every theorem is for all naming configurations, no bounds.
-
-  Three statements are FALSE of the unchanged tree at full strength; for each the full statement is kept as a `def`,
-  a `…_partial` theorem is proved under the precise extra hypothesis, and `¬ FullStatement` is proved from a concrete
-  witness that the harness replays on the real code (stream `c18`, directed cases 0, 1, 2):
-    * `AllocPermInvariant`      (F2: hash-order dependence)                → `Unambiguous`
-    * `ReservedOnlyWhereAllowed` (fvar hands out id 1/4/16/… for a default instance) → `DefaultNamesClean`
-    * `ReferencedIdsExist`       (source-supplied id inside the allocator's range)   → `SourceIdsClear`
+  Model: FontcModel/Names.lean — literal transcription of `NameBuilder::build`, `StaticMetadata::new`'s name-id
+  allocation (the `HashMap` iteration order is the explicit parameter `order`), fvar's `reusable_name_id`, STAT's axis
+  name lookup, FEA name-id shifting, **as of /repo 6370354**, i.e. with the three fixes this check produced:
+    c4dd162  the default instance's reuse decision looks at the smallest matching id (was: first match in hash order, F2)
+    ba69b97  allocation starts after the largest id the source already uses (was: always from 256)
+    6370354  fvar reuses the smallest id only if it is 2 / 17, else the first id ≥ 256 (was: the smallest id whatever it is)
+  Every theorem is for all naming configurations, no bounds; the headline theorems are unconditional.
+  The code before the fixes is kept as `allocOld` / `reusableNameIdOld` with the three kernel-checked counterexamples
+  (section "History"), whose witnesses are the directed cases 0, 1, 2 of stream `c18`.
 -/
 import FontcProofs.NamesMain
 import FontcProofs.NamesPerm
@@ -19,96 +18,97 @@ import FontcProofs.NamesMisc
 namespace Fontc.C18
 open Fontc.Names
 
-/-! ## hypotheses, spelled out -/
+/-! ## 1. the result depends on nothing but the source (cited by C01) -/
 
-/-- Font-specific ids (≥ 256) that the *source* supplies lie above everything the allocator can hand out
-    (it starts at 256 and makes at most one request per axis and two per instance). -/
-def SourceIdsClear (x : Input) : Prop :=
-  ∀ k v, (k, v) ∈ x.names → k.id ≤ 255 ∨ 256 + x.labels.length + 2 * x.insts.length ≤ k.id
+/-- **Order independence of the name-id allocation, full strength.** For every input and every two iteration orders of
+    the `names` map that are permutations of each other, `StaticMetadata::new` produces the same name table. -/
+theorem alloc_perm_invariant (x : Input) (order₁ order₂ : List NameKey) (h : order₁.Perm order₂) :
+    alloc order₁ x = alloc order₂ x :=
+  alloc_perm x order₁ order₂ h
 
-/-- The source's labels are not empty strings. -/
-def LabelsNonempty (x : Input) : Prop :=
-  (∀ l ∈ x.labels, l ≠ []) ∧ (∀ ni ∈ x.insts, ni.name ≠ [] ∧ ∀ p, ni.ps = some p → p ≠ [])
+/-- The second hash iteration in the same function (`reusable_names.into_iter()` feeding `names.extend`) does not
+    matter either: inserting the allocated entries in any other order gives the same map. -/
+theorem extend_order_irrelevant (order : List NameKey) (x : Input) (r' : List (Str × NameKey))
+    (h : r'.Perm (allocState order x).reusable) (k : NameKey) :
+    alookup k (extend x.names r') = alookup k (alloc order x) :=
+  extend_perm_lookup (allocState_inv order x).inj h k
 
-/-- A default-located instance's name is not also the string of a reserved name id other than 2 / 17
-    (family, full, PostScript, version … name). -/
-def DefaultNamesClean (x : Input) : Prop :=
-  ∀ ni ∈ effInsts x, ni.atDefault = true → ∀ k, (k, ni.name) ∈ x.names → k.id ≤ 255 → isSub k.id = true
+/-- For C01: the allocation as a function of the *set* of iteration orders — any two permutations of the key list agree. -/
+theorem name_allocation_order_independent (x : Input) (order₁ order₂ : List NameKey)
+    (p₁ : order₁.Perm (akeys x.names)) (p₂ : order₂.Perm (akeys x.names)) : alloc order₁ x = alloc order₂ x :=
+  alloc_perm_invariant x order₁ order₂ (p₁.trans p₂.symm)
 
-/-- For every default-located instance name: a source record with a font-specific id carries it, or every source
-    record carrying it has id 2 / 17, or none has. (Then the first match in *any* iteration order decides the same.) -/
-def Unambiguous (x : Input) : Prop :=
-  ∀ ni ∈ effInsts x, ni.atDefault = true →
-    (∃ k, (k, ni.name) ∈ x.names ∧ 255 < k.id) ∨
-    (∀ k, (k, ni.name) ∈ x.names → isSub k.id = true) ∨
-    (∀ k, (k, ni.name) ∈ x.names → isSub k.id = false)
-
-/-! ## 1. referenced ids exist, carry the source's string, and are non-empty -/
+/-! ## 2. referenced ids exist and carry the source's string -/
 
 /-- What has to hold of the table `T` the allocation produces: every lookup fvar / STAT make (axis label; instance
     subfamily name; instance PostScript name) succeeds — the Rust `unwrap()`s do not panic — and returns the id of a
     record whose string is exactly the source's label. -/
 def RefsResolve (x : Input) (T : Table) : Prop :=
-  (∀ l ∈ x.labels, ∃ id k, reusableNameId T l false = some id ∧ statAxisId T l = some id ∧ (k, l) ∈ T ∧ k.id = id ∧ l ≠ []) ∧
-  (∀ ni ∈ effInsts x, ∃ id k, reusableNameId T ni.name ni.atDefault = some id ∧ (k, ni.name) ∈ T ∧ k.id = id ∧ ni.name ≠ []) ∧
-  (∀ ni ∈ effInsts x, ∀ p, ni.ps = some p →
-     ∃ id k, reusableNameId T p false = some id ∧ (k, p) ∈ T ∧ k.id = id ∧ p ≠ [])
+  (∀ l ∈ x.labels, ∃ id k, reusableNameId T l false = some id ∧ statAxisId T l = some id ∧ (k, l) ∈ T ∧ k.id = id) ∧
+  (∀ ni ∈ effInsts x, ∃ id k, reusableNameId T ni.name ni.atDefault = some id ∧ (k, ni.name) ∈ T ∧ k.id = id) ∧
+  (∀ ni ∈ effInsts x, ∀ p, ni.ps = some p → ∃ id k, reusableNameId T p false = some id ∧ (k, p) ∈ T ∧ k.id = id)
 
-def ReferencedIdsExist : Prop :=
-  ∀ (order : List NameKey) (x : Input), LabelsNonempty x → RefsResolve x (alloc order x)
+/-- `names` is a `HashMap` (unique keys) and `order` is an iteration of it (visits every key): representation
+    invariants of the data structure, not restrictions on the source. -/
+def IsIteration (order : List NameKey) (x : Input) : Prop :=
+  (akeys x.names).Nodup ∧ ∀ k ∈ akeys x.names, k ∈ order
 
-theorem referenced_ids_exist_nonempty (order : List NameKey) (x : Input)
-    (hclear : SourceIdsClear x) (hne : LabelsNonempty x) : RefsResolve x (alloc order x) := by
-  have hc := clear_of_mem hclear
-  have hsub : ∀ ni ∈ effInsts x, ni ∈ x.insts := by
-    intro ni h; unfold effInsts at h; split at h
-    · simp at h
-    · exact h
+theorem referenced_ids_exist (order : List NameKey) (x : Input) (hit : IsIteration order x) :
+    RefsResolve x (alloc order x) := by
   refine ⟨?_, ?_, ?_⟩
   · intro l hl
-    obtain ⟨id, k, h1, h2, h3, h4, _⟩ := exist_label order hc hl
-    exact ⟨id, k, h1, h2, h3, h4, hne.1 l hl⟩
+    obtain ⟨id, k, h1, h2, h3, h4, _⟩ := exist_label order hl
+    exact ⟨id, k, h1, h2, h3, h4⟩
   · intro ni hni
-    obtain ⟨id, k, h1, h2, h3⟩ := exist_inst order hc hni
-    exact ⟨id, k, h1, h2, h3, (hne.2 ni (hsub ni hni)).1⟩
+    exact exist_inst order hit.1 hit.2 hni
   · intro ni hni p hp
-    obtain ⟨id, k, h1, h2, h3, _⟩ := exist_ps order hc hni hp
-    exact ⟨id, k, h1, h2, h3, (hne.2 ni (hsub ni hni)).2 p hp⟩
+    obtain ⟨id, k, h1, h2, h3, _⟩ := exist_ps order hni hp
+    exact ⟨id, k, h1, h2, h3⟩
 
-/-- Witness (directed case 2 of stream `c18`): the source supplies name id 256 = "Weight"; the second axis label is
-    allocated id 256 again and replaces it, so the first axis' name no longer resolves (fvar's `unwrap()` panics). -/
-def clashWitness : Input :=
-  { names := [(⟨256, 3, 1, 0x409⟩, [87, 101, 105, 103, 104, 116])],
-    labels := [[87, 101, 105, 103, 104, 116], [87, 105, 100, 116, 104]], insts := [] }
+/-- The source's labels are not empty strings. -/
+def LabelsNonempty (x : Input) : Prop :=
+  (∀ l ∈ x.labels, l ≠ []) ∧ (∀ ni ∈ x.insts, ni.name ≠ [] ∧ ∀ p, ni.ps = some p → p ≠ [])
 
-theorem referenced_ids_exist_counterexample : ¬ ReferencedIdsExist := by
-  intro h
-  have := (h [⟨256, 3, 1, 0x409⟩] clashWitness (by simp [LabelsNonempty, clashWitness])).1 [87, 101, 105, 103, 104, 116] (by decide)
-  obtain ⟨id, _, h1, _⟩ := this
-  revert h1
-  have : reusableNameId (alloc [⟨256, 3, 1, 0x409⟩] clashWitness) [87, 101, 105, 103, 104, 116] false = none := by decide
-  rw [this]; simp
+/-- … and the records are non-empty, because they carry the source's (non-empty) labels. The hypothesis is the
+    property's own domain: a record cannot both "say what the source says" and be non-empty when the source's label
+    is the empty string (directed case 9 of stream `c18`: the real code then writes an empty record, no failure). -/
+theorem referenced_ids_exist_nonempty (order : List NameKey) (x : Input) (hit : IsIteration order x)
+    (hne : LabelsNonempty x) :
+    RefsResolve x (alloc order x) ∧
+    (∀ l ∈ x.labels, l ≠ []) ∧ (∀ ni ∈ effInsts x, ni.name ≠ [] ∧ ∀ p, ni.ps = some p → p ≠ []) := by
+  refine ⟨referenced_ids_exist order x hit, hne.1, ?_⟩
+  intro ni h
+  apply hne.2
+  unfold effInsts at h; split at h
+  · simp at h
+  · exact h
 
-/-- Source records survive the allocation unchanged. -/
-theorem source_records_survive (order : List NameKey) (x : Input) (hclear : SourceIdsClear x)
+/-- Source records survive the allocation unchanged (nothing the source says is overwritten). -/
+theorem source_records_survive (order : List NameKey) (x : Input)
     (k : NameKey) (v : Str) (h : alookup k x.names = some v) : alookup k (alloc order x) = some v :=
-  alloc_source_survives order (clear_of_mem hclear) h
+  alloc_source_survives order h
 
-/-! ## 2. reserved ids only where the specification allows -/
+/-! ## 3. reserved ids only where the specification allows -/
+
+/-- OpenType fvar: "values of 2 or 17 can be used [for the default instance]; otherwise values must be greater than
+    255". Holds of every table `T` whatsoever: it is a property of fvar's lookup rule. -/
+theorem reserved_ids_only_where_allowed (T : Table) (s : Str) (atDefault : Bool) (id : Nat)
+    (h : reusableNameId T s atDefault = some id) : 256 ≤ id ∨ (atDefault = true ∧ isSub id = true) :=
+  (reusableNameId_some h).2
 
 /-- Axis names (fvar and STAT) and instance PostScript names never use an id below 256. -/
 theorem axis_and_psname_ids_font_specific (T : Table) (s : Str) (id : Nat) :
     (reusableNameId T s false = some id → 256 ≤ id) ∧ (statAxisId T s = some id → 256 ≤ id) := by
   constructor
   · intro h
-    rcases (reusableNameId_some h).2 with h | h
-    · cases h
+    rcases (reusableNameId_some h).2 with h | ⟨h, _⟩
     · exact h
+    · cases h
   · intro h
     rw [statAxisId_eq] at h
-    rcases (reusableNameId_some h).2 with h | h
-    · cases h
+    rcases (reusableNameId_some h).2 with h | ⟨h, _⟩
     · exact h
+    · cases h
 
 /-- Everything the allocator adds has an id ≥ 256, and records with an id below 256 are exactly the source's. -/
 theorem allocated_ids_font_specific (order : List NameKey) (x : Input) (k : NameKey) (s : Str)
@@ -117,40 +117,17 @@ theorem allocated_ids_font_specific (order : List NameKey) (x : Input) (k : Name
   · exact Or.inl (alloc_reserved_from_source order h hid)
   · exact Or.inr (by omega)
 
-/-- OpenType fvar: "values of 2 or 17 can be used [for the default instance]; otherwise values must be greater than 255". -/
-def ReservedOnlyWhereAllowed : Prop :=
-  ∀ (order : List NameKey) (x : Input), ∀ ni ∈ effInsts x, ∀ id,
-    reusableNameId (alloc order x) ni.name ni.atDefault = some id → 256 ≤ id ∨ (ni.atDefault = true ∧ isSub id = true)
-
-theorem reserved_ids_only_where_allowed_partial (order : List NameKey) (x : Input) (hclean : DefaultNamesClean x) :
-    ∀ ni ∈ effInsts x, ∀ id,
-      reusableNameId (alloc order x) ni.name ni.atDefault = some id → 256 ≤ id ∨ (ni.atDefault = true ∧ isSub id = true) :=
-  fun ni hni _ h => inst_id_allowed order (hclean ni hni) h
-
-/-- Witness (directed case 1 of stream `c18`): family "Fam", style "Regular", default instance named "Fam":
-    the instance's subfamilyNameID is 1. -/
-def reservedWitness : Input :=
-  { names := [(⟨1, 3, 1, 0x409⟩, [70, 97, 109]), (⟨2, 3, 1, 0x409⟩, [82, 101, 103, 117, 108, 97, 114])],
-    labels := [[87, 101, 105, 103, 104, 116]], insts := [⟨[70, 97, 109], none, true⟩] }
-
-theorem reserved_ids_counterexample : ¬ ReservedOnlyWhereAllowed := by
-  intro h
-  have h1 : reusableNameId (alloc [⟨1, 3, 1, 0x409⟩, ⟨2, 3, 1, 0x409⟩] reservedWitness) [70, 97, 109] true = some 1 := by decide
-  have := h [⟨1, 3, 1, 0x409⟩, ⟨2, 3, 1, 0x409⟩] reservedWitness ⟨[70, 97, 109], none, true⟩ (by decide) 1 h1
-  revert this; decide
-
-/-! ## 3. one id per string -/
+/-! ## 4. one id per string -/
 
 /-- Two allocated records never carry the same string, and no string is allocated that a source record with a
     font-specific id already carries. -/
-theorem same_string_same_id (order : List NameKey) (x : Input) (hn : (akeys x.names).Nodup)
-    (hcover : ∀ k ∈ akeys x.names, k ∈ order) (k₁ : NameKey) (s : Str)
+theorem same_string_same_id (order : List NameKey) (x : Input) (hit : IsIteration order x) (k₁ : NameKey) (s : Str)
     (h₁ : (k₁, s) ∈ alloc order x) (n₁ : k₁ ∉ akeys x.names) :
     (∀ k₂, (k₂, s) ∈ alloc order x → k₂ ∉ akeys x.names → k₁ = k₂) ∧
     (∀ k', (k', s) ∈ x.names → k'.id ≤ 255) :=
-  ⟨fun _ h₂ n₂ => fresh_same_string order h₁ h₂ n₁ n₂, fun _ hs => fresh_not_in_source order hn hcover h₁ n₁ hs⟩
+  ⟨fun _ h₂ n₂ => fresh_same_string order h₁ h₂ n₁ n₂, fun _ hs => fresh_not_in_source order hit.1 hit.2 h₁ n₁ hs⟩
 
-/-! ## 4. the fallback chain -/
+/-! ## 5. the fallback chain -/
 
 /-- `NameBuilder::build`, statement by statement, computes the declarative fallback rules: for every name id the final
     record is what `fallbackSpec` says (`none` = no record). `src` is what the source supplied. -/
@@ -161,44 +138,6 @@ theorem fallback_chain_spec (b : Builder) (vendor : Str) (hn : (akeys b.names).N
 /-- the hypothesis of `fallback_chain_spec` holds for whatever sequence of `add` calls a front end makes -/
 theorem front_end_ids_unique (adds : List (Nat × Str)) (major : Int) (minor : Nat) :
     (akeys (Builder.ofAdds adds major minor).names).Nodup := ofAdds_nodup adds major minor
-
-/-! ## 5. the result depends on nothing but the source (C01 for this core) -/
-
-def AllocPermInvariant : Prop :=
-  ∀ (x : Input) (order₁ order₂ : List NameKey), (akeys x.names).Nodup →
-    order₁.Perm (akeys x.names) → order₂.Perm (akeys x.names) → alloc order₁ x = alloc order₂ x
-
-theorem alloc_perm_invariant_partial (x : Input) (order₁ order₂ : List NameKey) (hn : (akeys x.names).Nodup)
-    (p₁ : order₁.Perm (akeys x.names)) (p₂ : order₂.Perm (akeys x.names)) (hun : Unambiguous x) :
-    alloc order₁ x = alloc order₂ x :=
-  alloc_perm_invariant_of_unambiguous x order₁ order₂ hn p₁ p₂ hun
-
-/-- F2 witness (directed case 0 of stream `c18`; exactly the `names` the real `NameBuilder` produces for
-    familyName = styleName = "Regular"): one variable axis "Weight", default instance "Regular". -/
-def f2Witness : Input :=
-  { names :=
-  [(⟨1, 3, 1, 0x409⟩, [82, 101, 103, 117, 108, 97, 114]),
-   (⟨2, 3, 1, 0x409⟩, [82, 101, 103, 117, 108, 97, 114]),
-   (⟨3, 3, 1, 0x409⟩, [48, 46, 48, 48, 48, 59, 78, 79, 78, 69, 59, 82, 101, 103, 117, 108, 97, 114, 45, 82, 101, 103, 117, 108, 97, 114]),
-   (⟨4, 3, 1, 0x409⟩, [82, 101, 103, 117, 108, 97, 114, 32, 82, 101, 103, 117, 108, 97, 114]),
-   (⟨5, 3, 1, 0x409⟩, [86, 101, 114, 115, 105, 111, 110, 32, 48, 46, 48, 48, 48]),
-   (⟨6, 3, 1, 0x409⟩, [82, 101, 103, 117, 108, 97, 114, 45, 82, 101, 103, 117, 108, 97, 114])],
-    labels := [[87, 101, 105, 103, 104, 116]],
-    insts := [⟨[82, 101, 103, 117, 108, 97, 114], none, true⟩, ⟨[66, 111, 108, 100], none, false⟩] }
-
-def f2Order₁ : List NameKey := [⟨1, 3, 1, 0x409⟩, ⟨2, 3, 1, 0x409⟩, ⟨3, 3, 1, 0x409⟩, ⟨4, 3, 1, 0x409⟩, ⟨5, 3, 1, 0x409⟩, ⟨6, 3, 1, 0x409⟩]
-def f2Order₂ : List NameKey := [⟨2, 3, 1, 0x409⟩, ⟨1, 3, 1, 0x409⟩, ⟨3, 3, 1, 0x409⟩, ⟨4, 3, 1, 0x409⟩, ⟨5, 3, 1, 0x409⟩, ⟨6, 3, 1, 0x409⟩]
-
-/-- iterating id 1 first allocates 257 = "Regular" and 258 = "Bold"; iterating id 2 first allocates only 257 = "Bold" -/
-theorem f2_two_results :
-    (alloc f2Order₁ f2Witness).map (fun p => (p.1.id, p.2)) ≠ (alloc f2Order₂ f2Witness).map (fun p => (p.1.id, p.2)) ∧
-    (alloc f2Order₁ f2Witness).length = 9 ∧ (alloc f2Order₂ f2Witness).length = 8 := by decide
-
-theorem alloc_perm_invariant_counterexample : ¬ AllocPermInvariant := by
-  intro h
-  have := h f2Witness f2Order₁ f2Order₂ (by decide) (List.Perm.refl _) (List.Perm.swap _ _ _)
-  have hl := congrArg List.length this
-  revert hl; decide
 
 /-! ## 6. names from feature code -/
 
@@ -222,47 +161,90 @@ theorem fea_ids_disjoint_after_shift (T : Table) (id : Nat) :
     · exact h
     · split at h <;> split at h <;> omega
 
+/-! ## History: the three statements that were false before the fixes (old model `allocOld` / `reusableNameIdOld`) -/
+
+/-- F2 witness (directed case 0 of stream `c18`; exactly the `names` the real `NameBuilder` produces for
+    familyName = styleName = "Regular"): one variable axis "Weight", default instance "Regular". -/
+def f2Witness : Input :=
+  { names :=
+  [(⟨1, 3, 1, 0x409⟩, [82, 101, 103, 117, 108, 97, 114]),
+   (⟨2, 3, 1, 0x409⟩, [82, 101, 103, 117, 108, 97, 114]),
+   (⟨3, 3, 1, 0x409⟩, [48, 46, 48, 48, 48, 59, 78, 79, 78, 69, 59, 82, 101, 103, 117, 108, 97, 114, 45, 82, 101, 103, 117, 108, 97, 114]),
+   (⟨4, 3, 1, 0x409⟩, [82, 101, 103, 117, 108, 97, 114, 32, 82, 101, 103, 117, 108, 97, 114]),
+   (⟨5, 3, 1, 0x409⟩, [86, 101, 114, 115, 105, 111, 110, 32, 48, 46, 48, 48, 48]),
+   (⟨6, 3, 1, 0x409⟩, [82, 101, 103, 117, 108, 97, 114, 45, 82, 101, 103, 117, 108, 97, 114])],
+    labels := [[87, 101, 105, 103, 104, 116]],
+    insts := [⟨[82, 101, 103, 117, 108, 97, 114], none, true⟩, ⟨[66, 111, 108, 100], none, false⟩] }
+
+def f2Order₁ : List NameKey := [⟨1, 3, 1, 0x409⟩, ⟨2, 3, 1, 0x409⟩, ⟨3, 3, 1, 0x409⟩, ⟨4, 3, 1, 0x409⟩, ⟨5, 3, 1, 0x409⟩, ⟨6, 3, 1, 0x409⟩]
+def f2Order₂ : List NameKey := [⟨2, 3, 1, 0x409⟩, ⟨1, 3, 1, 0x409⟩, ⟨3, 3, 1, 0x409⟩, ⟨4, 3, 1, 0x409⟩, ⟨5, 3, 1, 0x409⟩, ⟨6, 3, 1, 0x409⟩]
+
+/-- before c4dd162: iterating id 1 first allocated 257 = "Regular" and 258 = "Bold"; iterating id 2 first allocated only
+    257 = "Bold" — two different fonts from one source -/
+theorem f2_two_results :
+    (allocOld f2Order₁ f2Witness).map (fun p => (p.1.id, p.2)) ≠ (allocOld f2Order₂ f2Witness).map (fun p => (p.1.id, p.2)) ∧
+    (allocOld f2Order₁ f2Witness).length = 9 ∧ (allocOld f2Order₂ f2Witness).length = 8 := by decide
+
+/-- the old allocation was not order independent … -/
+theorem allocOld_perm_invariant_counterexample :
+    ¬ ∀ (x : Input) (order₁ order₂ : List NameKey), (akeys x.names).Nodup →
+        order₁.Perm (akeys x.names) → order₂.Perm (akeys x.names) → allocOld order₁ x = allocOld order₂ x := by
+  intro h
+  have := h f2Witness f2Order₁ f2Order₂ (by decide) (List.Perm.refl _) (List.Perm.swap _ _ _)
+  have hl := congrArg List.length this
+  revert hl; decide
+
+/-- … and the current one gives one answer on the same witness: 256 "Weight", 257 "Regular", 258 "Bold" -/
+theorem f2_one_result :
+    alloc f2Order₁ f2Witness = alloc f2Order₂ f2Witness ∧
+    (alloc f2Order₁ f2Witness).map (fun p => p.1.id) = [1, 2, 3, 4, 5, 6, 256, 257, 258] ∧
+    fvar (alloc f2Order₂ f2Witness) f2Witness matches .table ⟨[256], [(257, none), (258, none)]⟩ := by decide
+
+/-- Witness (directed case 1 of stream `c18`): family "Fam", style "Regular", default instance named "Fam". -/
+def reservedWitness : Input :=
+  { names := [(⟨1, 3, 1, 0x409⟩, [70, 97, 109]), (⟨2, 3, 1, 0x409⟩, [82, 101, 103, 117, 108, 97, 114])],
+    labels := [[87, 101, 105, 103, 104, 116]], insts := [⟨[70, 97, 109], none, true⟩] }
+
+/-- before 6370354 the default instance's subfamilyNameID was 1 (the family name); now it is the allocated 257 -/
+theorem reserved_id_old_and_new :
+    reusableNameIdOld (allocOld [⟨1, 3, 1, 0x409⟩, ⟨2, 3, 1, 0x409⟩] reservedWitness) [70, 97, 109] true = some 1 ∧
+    reusableNameId (alloc [⟨1, 3, 1, 0x409⟩, ⟨2, 3, 1, 0x409⟩] reservedWitness) [70, 97, 109] true = some 257 := by decide
+
+/-- Witness (directed case 2 of stream `c18`): the source supplies name id 256 = "Weight"; axes Weight and Width. -/
+def clashWitness : Input :=
+  { names := [(⟨256, 3, 1, 0x409⟩, [87, 101, 105, 103, 104, 116])],
+    labels := [[87, 101, 105, 103, 104, 116], [87, 105, 100, 116, 104]], insts := [] }
+
+/-- before ba69b97 "Width" was allocated id 256 again and replaced the source's record: the first axis' name no longer
+    resolved (fvar panicked); now "Width" gets 257 and both resolve -/
+theorem source_id_clash_old_and_new :
+    reusableNameIdOld (allocOld [⟨256, 3, 1, 0x409⟩] clashWitness) [87, 101, 105, 103, 104, 116] false = none ∧
+    reusableNameId (alloc [⟨256, 3, 1, 0x409⟩] clashWitness) [87, 101, 105, 103, 104, 116] false = some 256 ∧
+    reusableNameId (alloc [⟨256, 3, 1, 0x409⟩] clashWitness) [87, 105, 100, 116, 104] false = some 257 := by decide
+
 /-! ## non-vacuity -/
 
-/-- a well-behaved configuration (directed case 4): family "Fam", style "Regular", axes Weight / Width, the default
-    instance reuses id 2, repeated strings share ids -/
+/-- a configuration with every kind of collision: default instance named like the style (reuses 2), another default
+    instance named like the family (must not use 1), repeated strings, a source-supplied font-specific id -/
 def okWitness : Input :=
   { names := [(⟨1, 3, 1, 0x409⟩, [70, 97, 109]), (⟨2, 3, 1, 0x409⟩, [82, 101, 103, 117, 108, 97, 114]), (⟨300, 3, 1, 0x409⟩, [66, 108, 97, 99, 107])],
     labels := [[87, 101, 105, 103, 104, 116], [87, 105, 100, 116, 104]],
     insts := [⟨[82, 101, 103, 117, 108, 97, 114], some [70, 97, 109, 45, 82, 101, 103, 117, 108, 97, 114], true⟩, ⟨[66, 111, 108, 100], none, false⟩,
-              ⟨[66, 111, 108, 100], some [70, 97, 109, 45, 66, 111, 108, 100], false⟩, ⟨[87, 105, 100, 116, 104], none, false⟩, ⟨[66, 108, 97, 99, 107], none, false⟩] }
+              ⟨[66, 111, 108, 100], some [70, 97, 109, 45, 66, 111, 108, 100], false⟩, ⟨[87, 105, 100, 116, 104], none, false⟩, ⟨[66, 108, 97, 99, 107], none, false⟩,
+              ⟨[70, 97, 109], none, true⟩] }
 
 def okOrder : List NameKey := [⟨300, 3, 1, 0x409⟩, ⟨2, 3, 1, 0x409⟩, ⟨1, 3, 1, 0x409⟩]
 
-example : SourceIdsClear okWitness ∧ LabelsNonempty okWitness ∧ DefaultNamesClean okWitness ∧ Unambiguous okWitness := by
-  refine ⟨?_, ?_, ?_, ?_⟩
-  · intro k v h
-    simp only [okWitness, List.mem_cons, List.mem_nil_iff, or_false, Prod.mk.injEq] at h
-    rcases h with ⟨rfl, _⟩ | ⟨rfl, _⟩ | ⟨rfl, _⟩ <;> simp [okWitness]
-  · simp [LabelsNonempty, okWitness]
-  · intro ni hni hd k hk _
-    have hni' : ni = ⟨[82, 101, 103, 117, 108, 97, 114], some [70, 97, 109, 45, 82, 101, 103, 117, 108, 97, 114], true⟩ := by
-      simp only [effInsts, okWitness] at hni
-      simp at hni
-      rcases hni with rfl | rfl | rfl | rfl | rfl <;> first | rfl | (simp at hd)
-    subst hni'
-    simp only [okWitness, List.mem_cons, List.mem_nil_iff, or_false, Prod.mk.injEq] at hk
-    rcases hk with ⟨rfl, h⟩ | ⟨rfl, h⟩ | ⟨rfl, h⟩ <;> first | rfl | (revert h; decide)
-  · intro ni hni hd
-    have hni' : ni = ⟨[82, 101, 103, 117, 108, 97, 114], some [70, 97, 109, 45, 82, 101, 103, 117, 108, 97, 114], true⟩ := by
-      simp only [effInsts, okWitness] at hni
-      simp at hni
-      rcases hni with rfl | rfl | rfl | rfl | rfl <;> first | rfl | (simp at hd)
-    subst hni'
-    right; left
-    intro k hk
-    simp only [okWitness, List.mem_cons, List.mem_nil_iff, or_false, Prod.mk.injEq] at hk
-    rcases hk with ⟨rfl, h⟩ | ⟨rfl, h⟩ | ⟨rfl, h⟩ <;> first | rfl | (revert h; decide)
+example : IsIteration okOrder okWitness ∧ LabelsNonempty okWitness := by
+  refine ⟨⟨by decide, by decide⟩, ?_⟩
+  simp [LabelsNonempty, okWitness]
 
-/-- the model on that configuration: ids 256-261 are allocated, "Black" reuses the source's 300, the default instance
-    reuses 2, both "Bold" instances share 258, the instance "Width" shares the axis' 257 -/
-example : (alloc okOrder okWitness).map (fun p => p.1.id) = [1, 2, 300, 256, 257, 258, 259, 260] ∧
-    fvar (alloc okOrder okWitness) okWitness matches .table ⟨[256, 257], [(2, some 258), (259, some 0xFFFF), (259, some 260), (257, some 0xFFFF), (300, some 0xFFFF)]⟩ := by
+/-- the model on that configuration: allocation starts after the source's 300; "Black" reuses 300; the first default
+    instance reuses 2; both "Bold" share 303; the instance "Width" shares the axis' 302; the default instance "Fam"
+    gets 306, not 1 -/
+example : (alloc okOrder okWitness).map (fun p => p.1.id) = [1, 2, 300, 301, 302, 303, 304, 305, 306] ∧
+    fvar (alloc okOrder okWitness) okWitness matches
+      .table ⟨[301, 302], [(2, some 303), (304, some 0xFFFF), (304, some 305), (302, some 0xFFFF), (300, some 0xFFFF), (306, some 0xFFFF)]⟩ := by
   decide
 
 /-- non-RIBBI style without legacy names (directed case 5): "Fam" + "Condensed Thin" → family "Fam Condensed Thin",
@@ -273,19 +255,23 @@ example :
     s.id1 = [70, 97, 109, 32, 67, 111, 110, 100, 101, 110, 115, 101, 100, 32, 84, 104, 105, 110] ∧ s.id2 = [82, 101, 103, 117, 108, 97, 114] ∧ s.id16 = [70, 97, 109] ∧ s.dropTypo = false := by
   decide
 
+#print axioms alloc_perm_invariant
+#print axioms extend_order_irrelevant
+#print axioms name_allocation_order_independent
+#print axioms referenced_ids_exist
 #print axioms referenced_ids_exist_nonempty
-#print axioms referenced_ids_exist_counterexample
 #print axioms source_records_survive
+#print axioms reserved_ids_only_where_allowed
 #print axioms axis_and_psname_ids_font_specific
 #print axioms allocated_ids_font_specific
-#print axioms reserved_ids_only_where_allowed_partial
-#print axioms reserved_ids_counterexample
 #print axioms same_string_same_id
 #print axioms fallback_chain_spec
 #print axioms front_end_ids_unique
-#print axioms alloc_perm_invariant_partial
-#print axioms f2_two_results
-#print axioms alloc_perm_invariant_counterexample
 #print axioms fea_ids_disjoint_after_shift
+#print axioms f2_two_results
+#print axioms allocOld_perm_invariant_counterexample
+#print axioms f2_one_result
+#print axioms reserved_id_old_and_new
+#print axioms source_id_clash_old_and_new
 
 end Fontc.C18
